@@ -124,6 +124,8 @@ pub struct HistRun {
     /// the `Distribution` aggregation strategy (documented as sort-and-merge without naming T)
     pub distribution: Closed,
     pub with_sort: bool,
+    /// strategies used directly and *reused* after a drain: (strategy, drain of a reused one, drain of a fresh one)
+    pub reuse: Vec<(&'static str, Vec<(f64, u64)>, Vec<(f64, u64)>)>,
     pub done: bool,
 }
 
@@ -252,6 +254,35 @@ fn hist_main(plan: &Value, slot: Arc<Mutex<Option<HistRun>>>) {
         "rep" => run_typed::<Rep>(raw.iter().map(|t| t.iter().map(|v| Rep { total: jf(v, "t", 0.0), n: ju(v, "n", 0) }).collect()).collect(), order, split, ws),
         _ => run_typed::<f64>(raw.iter().map(|t| t.iter().map(|v| jf(v, "v", 0.0)).collect()).collect(), order, split, ws),
     };
+    // the strategies through their own (public) trait, reused across a drain: a drain resets
+    let mut run = run;
+    if run.done {
+        use metrique_aggregation::histogram::{AggregationStrategy, SharedAggregationStrategy};
+        let ins: Vec<In> = inputs_of(plan).into_iter().flatten().filter(|i| i.n <= 4096).collect();
+        let cut = (ju(plan, "split", 0) as usize).min(ins.len());
+        let obs = |v: Vec<Observation>| -> Vec<(f64, u64)> { v.into_iter().map(|o| match o { Observation::Repeated { total, occurrences } => (total, occurrences), Observation::Unsigned(u) => (u as f64, 1), Observation::Floating(f) => (f, 1), #[allow(unreachable_patterns)] _ => (f64::NAN, 0) }).collect() };
+        macro_rules! reuse {
+            ($name:literal, $mk:expr, $rec:ident) => {{
+                let mut a = $mk;
+                for i in &ins[..cut] {
+                    a.$rec(i.x, i.n);
+                }
+                let _ = a.drain();
+                for i in &ins[cut..] {
+                    a.$rec(i.x, i.n);
+                }
+                let reused = obs(a.drain());
+                let mut b = $mk;
+                for i in &ins[cut..] {
+                    b.$rec(i.x, i.n);
+                }
+                run.reuse.push(($name, reused, obs(b.drain())));
+            }};
+        }
+        reuse!("SortAndMerge", SortAndMerge::<32>::default(), record_many);
+        reuse!("ExponentialAggregationStrategy", ExponentialAggregationStrategy::default(), record_many);
+        reuse!("AtomicExponentialAggregationStrategy", AtomicExponentialAggregationStrategy::default(), record_many);
+    }
     *slot.lock().unwrap() = Some(run);
 }
 
@@ -421,6 +452,11 @@ pub fn check_c11(plan: &Value, run: &HistRun) -> Option<Violation> {
     }
     if run.merged_exp.obs != run.seq_exp.obs {
         return Some(Violation::new("merge_changes_exponential", format!("merging two closed exponential histograms differs from one histogram of all values: {:?} vs {:?}", &run.merged_exp.obs[..run.merged_exp.obs.len().min(6)], &run.seq_exp.obs[..run.seq_exp.obs.len().min(6)])));
+    }
+    for (name, reused, fresh) in &run.reuse {
+        if reused != fresh {
+            return Some(Violation::new("drain_does_not_reset", format!("{name}: after record / drain / record, the second drain reports {:?}; a fresh strategy fed the second batch only reports {:?}", &reused[..reused.len().min(6)], &fresh[..fresh.len().min(6)])));
+        }
     }
     if !run.with_sort {
         return None;
